@@ -35,6 +35,20 @@ def budget_s(tier):
 @st.composite
 def case(draw, tier):
     big = tier == "thorough"
+    if draw(st.integers(0, 11)) == 0:
+        # a DURATION window fed at a changing rate: sparse phases let old entries age out (the ring's head moves), dense
+        # bursts then hold more entries than ever before (the ring grows while wrapped)
+        rng = draw(st.integers(4, 12))
+        start = draw(st.sampled_from([0, 3, 70000]))
+        t, script = start, []
+        for _ in range(draw(st.integers(2, 4))):
+            for _ in range(draw(st.integers(2, 5))):                      # sparse
+                script.append([t, [{"k": "push", "v": draw(st.integers(0, 99))}]])
+                t += draw(st.integers(2, 6))
+            for _ in range(draw(st.integers(4, 14 if big else 10))):      # dense
+                script.append([t, [{"k": "push", "v": draw(st.integers(0, 99))}]])
+                t += 1
+        return {"schema": ("TSW", "int", ("dur", rng), 0), "script": script, "start": start, "end": t + 1}
     schema = draw(tm.schemas(3))
     while schema[0] in ("TS",):
         schema = draw(tm.schemas(3))
